@@ -20,12 +20,25 @@ ASSUMPTIONS = ['route names are ASCII; the verifier accepts simple("user","pass"
                'for fire-and-forget and metadata-push "fails on that request alone" means: no handler runs and the '
                'connection keeps serving']
 DECIDING_REQUIRED = ('requests_dispatched', 'handlers_run_checked', 'gate_rejections_checked', 'unknown_route_handlers_used',
-                     'bystanders_checked')
+                     'bystanders_checked', 'typed_parameters_checked')
 EXHAUSTIVE_GENS = ()
 BUDGET_S = {'quick': 100, 'thorough': 2400}
 
 TYPES = ('rr', 'stream', 'channel', 'fnf', 'push')
-SIGS = ('()', '(payload)', '(p: Payload)', '(composite_metadata)', '(cm: CompositeMetadata)', '(payload, composite_metadata)')
+SIGS = ('()', '(payload)', '(p: Payload)', '(composite_metadata)', '(cm: CompositeMetadata)', '(payload, composite_metadata)',
+        '(dto: Dto)', '(dto: Dto, payload)', '(payload, dto: Dto, cm: CompositeMetadata, p2: Payload)')
+
+
+class Dto:
+    """What the router's payload_deserializer makes of a payload for a parameter annotated with this class."""
+
+    def __init__(self, payload):
+        self.data = bytes(getattr(payload, 'data', None) or b'')
+        self.seen_type = type(payload).__name__
+
+
+def _deserializer(cls, payload):
+    return cls(payload) if cls is Dto else payload
 ROUTES = ('a', 'b', 'zzz', 'empty-tags', 'no-routing-entry')
 AUTHS = ('none', 'rejected-simple', 'rejected-bearer', 'accepted-simple', 'accepted-bearer')
 POSITIONS = ('first', 'after-auth', 'after-custom', 'two-routing-entries', 'two-tags')
@@ -93,6 +106,18 @@ def _handler(kind, name, sig, log):
         async def h(cm: CompositeMetadata):
             rec(cm=cm)
             return result()
+    elif sig == '(dto: Dto)':
+        async def h(dto: Dto):
+            rec(dto=dto)
+            return result()
+    elif sig == '(dto: Dto, payload)':
+        async def h(dto: Dto, payload):
+            rec(dto=dto, payload=payload)
+            return result()
+    elif sig == '(payload, dto: Dto, cm: CompositeMetadata, p2: Payload)':
+        async def h(payload, dto: Dto, cm: CompositeMetadata, p2: Payload):
+            rec(payload=payload, dto=dto, cm=cm, payload2=p2)
+            return result()
     else:
         async def h(payload, composite_metadata):
             rec(payload=payload, cm=composite_metadata)
@@ -103,7 +128,7 @@ def _handler(kind, name, sig, log):
 def build_router(table, sigs, log):
     from rsocket.routing.request_router import RequestRouter
     reg, unk, verifier = table
-    router = RequestRouter()
+    router = RequestRouter(payload_deserializer=_deserializer)
     deco = {'rr': (router.response, router.response_unknown), 'stream': (router.stream, router.stream_unknown),
             'channel': (router.channel, router.channel_unknown),
             'fnf': (router.fire_and_forget, router.fire_and_forget_unknown),
@@ -316,6 +341,20 @@ def judge(table, names, results, alive):
                 exp_data = r['data'] if t != 'push' else b''
                 if bytes(getattr(p, 'data', None) or b'') != exp_data or bytes(getattr(p, 'metadata', None) or b'') != r['md']:
                     bad('payload-parameter-differs', r)
+            from rsocket.payload import Payload as _P
+            for key in ('payload', 'payload2'):
+                if key in kw and not isinstance(kw[key], _P):
+                    bad('payload-parameter-differs', r, parameter=key, got_type=type(kw[key]).__name__)
+            if 'payload2' in kw:
+                p2 = kw['payload2']
+                if bytes(getattr(p2, 'data', None) or b'') != (r['data'] if t != 'push' else b''):
+                    bad('payload-parameter-differs', r, parameter='p2')
+            if 'dto' in kw:
+                st['typed_parameters_checked'] = st.get('typed_parameters_checked', 0) + 1
+                dto = kw['dto']
+                if not isinstance(dto, Dto) or dto.seen_type != 'Payload' or dto.data != (r['data'] if t != 'push' else b''):
+                    bad('typed-parameter-differs', r, got_type=type(dto).__name__,
+                        deserializer_was_given=getattr(dto, 'seen_type', None))
             if 'cm' in kw:
                 cm = kw['cm']
                 try:
